@@ -420,8 +420,9 @@ func TestEmptyTrees(t *testing.T) {
 
 // ---- combin: arguments outside the domain of the index maps -----------------------
 
-// combRangeCase: a valid combination of (N,K) with the element at Pos replaced
-// by Val, chosen so that the result stays strictly increasing but leaves [0,N).
+// combRangeCase: a valid combination of (N,K) whose last element was moved to
+// N or beyond, or whose first element was made negative: Comb stays strictly
+// increasing and of length K but is not a subset of [0,N).
 type combRangeCase struct {
 	N, K int
 	Comb []int
